@@ -1,5 +1,5 @@
 (* C12 — thread-local systems. Statements only; proofs in PlanProps.v / ExecPlan.v. *)
-From Shred Require Import Base SrcParams Plan PlanObs PlanLemmas PlanInv PlanLoc PlanBuild PlanProps Exec ExecProps ExecPlan BatchProps OracleProps.
+From Shred Require Import Base SrcParams Plan PlanObs PlanLemmas PlanInv PlanLoc PlanBuild PlanProps Exec ExecProps ExecPlan BatchProps OracleProps ExecObs TraceOracles ExecOracles.
 
 (* the thread-local list of the built dispatcher is exactly the thread-local registrations,
    in registration order, whatever else is registered around them *)
@@ -42,6 +42,18 @@ Theorem C12_oracle_sendable_holds_on_model :
   forall rs b, plan rs = Ok b -> o_sendable rs (sendable b) = true.
 Proof. exact o_sendable_on_model. Qed.
 Print Assumptions C12_oracle_sendable_holds_on_model.
+
+(* ---- the run-time oracle `tl_last` on every RECORDED trace ---- *)
+Theorem C12_oracle_tl_last_meaning :
+  forall tl tr, o_tl_last tl tr = true ->
+  exists pre, tr = pre ++ group_trace tl /\ forall e, In e pre -> ~ In (ev_tag e) tl.
+Proof. exact o_tl_last_meaning. Qed.
+Print Assumptions C12_oracle_tl_last_meaning.
+Theorem C12_oracle_tl_last_holds_on_every_model_trace :
+  forall rs b t, plan rs = Ok b -> Forall reg_time_ok1 rs -> NoDup (sys_tags rs ++ tl_tags rs) ->
+  traces_disp (layout_tags b) (b_tl b) t -> o_tl_last (b_tl b) t = true.
+Proof. exact tl_last_on_model_traces. Qed.
+Print Assumptions C12_oracle_tl_last_holds_on_every_model_trace.
 
 Example C12_example :
   let rs := [RTL 7; RSys 1 [] [] [] [8] 3%Z; RBarrier; RTL 8; RSys 2 [] [] [8] [] 3%Z] in
